@@ -296,7 +296,10 @@ def case_grid(rng):
     targets = [make_targets(rng, g, "x") for g in grids]
     if rng.uniform() < 0.6:
         targets = [np.clip(t, g.min(), g.max()) for t, g in zip(targets, grids)]
-    return {"part": "grid", "names": names, "grids": grids, "dims": dims, "values": vals, "targets": targets}
+    nearest = bool(rng.uniform() < 0.3)
+    if nearest:
+        targets = [np.clip(t, g.min(), g.max()) for t, g in zip(targets, grids)]
+    return {"part": "grid", "names": names, "grids": grids, "dims": dims, "values": vals, "targets": targets, "nearest": nearest}
 
 
 def judge_grid(ctx, c):
@@ -313,6 +316,8 @@ def judge_grid(ctx, c):
     tg = {n: np.asarray(t, float) for n, t in zip(names, c["targets"])}
     ctx.case(("grid", len(names), "p" in c["dims"], tuple(c["dims"])), nontrivial=True,
              sample={"dims": c["dims"], "grids": [g[:4] for g in c["grids"]], "targets": [t[:4] for t in c["targets"]]})
+    if c.get("nearest"):
+        return judge_grid_nearest(ctx, c, ds, tg, coords)
     ok, out = guarded(ctx, "C13.no-exception", lambda: interpolate_dataset_grid(dict(tg), ds), c, key="C13:exception:grid")
     if not ok:
         return
@@ -348,6 +353,37 @@ def judge_grid(ctx, c):
             key = "C13:grid:outside-target-poisons-inside-targets"
     ctx.count("C13.grid_cases_all_targets_inside" if not any_outside else "C13.grid_cases_with_outside_targets")
     ctx.close("C13.grid==RegularGridInterpolator", got, want, atol=1e-11 * scale, rtol=1e-11, case=c, key=key)
+
+
+def judge_grid_nearest(ctx, c, ds, tg, coords):
+    """nearest-neighbour mode over several coordinates: every returned value is the grid value at the nearest node of
+    EVERY coordinate (targets within 1e-9 of a mid point between two nodes may take either and are not compared)"""
+    from ocean_science_utilities.interpolate.dataset import interpolate_dataset_grid
+    names = c["names"]
+    ok, out = guarded(ctx, "C13.no-exception", lambda: interpolate_dataset_grid(dict(tg), ds, nearest_neighbour=True), c,
+                      key="C13:exception:grid")
+    if not ok:
+        return
+    lead = [d for d in c["dims"] if d == "p"]
+    got = out["v"].transpose(*(lead + names)).values
+    v = ds["v"].transpose(*(lead + names)).values
+    idxs, amb = [], []
+    for n in names:
+        g, t = coords[n], tg[n]
+        dist = np.abs(t[:, None] - g[None, :])
+        order = np.sort(dist, axis=1)
+        idxs.append(np.argmin(dist, axis=1))
+        amb.append((order[:, 1] - order[:, 0]) < 1e-9 if len(g) > 1 else np.zeros(len(t), bool))
+    want = v[(slice(None),) * len(lead) + np.ix_(*idxs)]
+    ambm = np.zeros(want.shape[len(lead):], bool)
+    for i, a in enumerate(amb):
+        shp = [1] * len(names)
+        shp[i] = len(a)
+        ambm = ambm | a.reshape(shp)
+    sel = np.broadcast_to(~ambm, want.shape)
+    ctx.count("C13.grid_cases_nearest")
+    ctx.check("C13.grid:nearest==value-at-nearest-node", got.shape == want.shape and bool(np.array_equal(got[sel], want[sel])), c,
+              {"got": got, "want": want}, key="C13:grid:nearest")
 
 
 # ------------------------------------------------------------------ part C
@@ -411,6 +447,23 @@ def judge_spectrum(ctx, c):
         axis = 1
     if not ok:
         return
+    # the same call once more on the same object: the first call must not have left anything behind
+    if along == "time":
+        ok2, out2 = guarded(ctx, "C13.no-exception", lambda: s.interpolate({"time": t64}, extrapolation_value=ev), c,
+                            key="C13:exception:spectrum.interpolate")
+    elif kind == "1d":
+        ok2, out2 = guarded(ctx, "C13.no-exception",
+                            lambda: s.interpolate_frequency(tg.astype(float), extrapolation_value=ev, method=c["method"]), c,
+                            key="C13:exception:interpolate_frequency")
+    else:
+        ok2, out2 = guarded(ctx, "C13.no-exception", lambda: s.interpolate_frequency(tg.astype(float), extrapolation_value=ev), c,
+                            key="C13:exception:interpolate_frequency")
+    if ok2:
+        same = all(np.array_equal(np.asarray(out.dataset[v_].values), np.asarray(out2.dataset[v_].values), equal_nan=True)
+                   if np.asarray(out.dataset[v_].values).dtype.kind == "f" else
+                   np.array_equal(np.asarray(out.dataset[v_].values), np.asarray(out2.dataset[v_].values))
+                   for v_ in out.dataset.variables)
+        ctx.check("C13.spectrum:second-use==first-use", bool(same), c, None, key="C13:spectrum:second-use")
     ctx.check("C13.spectrum:class", type(out) is type(s), c, {"type": type(out).__name__}, key="C13:spectrum:class")
     tgf = tg.astype(float)
     outside = (tgf < xp.min()) | (tgf > xp.max())
